@@ -79,6 +79,40 @@ func RuleDRecursion(c *core.Ctx) {
 					grows, ownChain = true, base
 				}
 			}
+			// (a') grows, linked form: the chain argument is a fresh node that holds the
+			// activation's own path and points to its own chain
+			for v := range chainOrigin {
+				al, ok := v.(*ssa.Alloc)
+				if !ok || al.Referrers() == nil {
+					continue
+				}
+				var parent *ssa.Parameter
+				ownPath := false
+				for _, r := range *al.Referrers() {
+					fa, ok := r.(*ssa.FieldAddr)
+					if !ok {
+						continue
+					}
+					for _, st := range core.StoresTo(fa) {
+						for x := range originSet(p, st.Val, 1) {
+							if q, ok := x.(*ssa.Parameter); ok {
+								if li.carries(p, q, "chain", 0) {
+									parent = q
+								}
+								if li.carries(p, q, "path", 0) {
+									ownPath = true
+								}
+							}
+						}
+						if intersects(originSet(p, st.Val, 1), newPathOrigin) {
+							ownPath = true
+						}
+					}
+				}
+				if parent != nil && ownPath {
+					grows, ownChain = true, parent
+				}
+			}
 			if !grows {
 				verdicts = append(verdicts, fmt.Sprintf("parameter %s is passed on but is not extended with the current path", prm.Name()))
 				continue
@@ -248,6 +282,11 @@ func RuleDLoaderReject(c *core.Ctx) {
 								if name == "Contains" || name == "Index" || name == "ContainsFunc" || name == "IndexFunc" || name == "Has" {
 									underChain = underChain || isChain(v.Call.Args[0])
 								}
+								for i, a := range v.Call.Args {
+									if membershipHelper(p, callee, i) && isChain(a) {
+										underChain = true
+									}
+								}
 							}
 						}
 					}
@@ -315,6 +354,11 @@ func readsElementOf(p *core.Prog, co, chain map[ssa.Value]bool, prm *ssa.Paramet
 				}
 				if (name == "Has" || name == "Contains") && inChain(v.Call.Args[0]) {
 					return true
+				}
+				for i, a := range v.Call.Args {
+					if inChain(a) && membershipHelper(p, callee, i) {
+						return true
+					}
 				}
 			}
 		}
